@@ -51,6 +51,27 @@ def _next_up(v):
     return f.numerator, f.denominator
 
 
+def _zip_attrs_consulted(tree):
+    """(function, attribute) for every attribute name of a zipfile.ZipInfo / zipfile.ZipFile object that occurs in
+    the guard module — as `x.attr`, or as the constant name in getattr/hasattr(x, "attr") — whatever the receiver"""
+    import zipfile
+    cand = {n for n in set(dir(zipfile.ZipInfo("x"))) | set(dir(zipfile.ZipFile)) if not n.startswith("__")}
+    out = set()
+    for fn in ast.walk(tree):
+        if not isinstance(fn, (ast.FunctionDef, ast.AsyncFunctionDef)):
+            continue
+        for node in ast.walk(fn):
+            name = None
+            if isinstance(node, ast.Attribute):
+                name = node.attr
+            elif (isinstance(node, ast.Call) and isinstance(node.func, ast.Name) and node.func.id in ("getattr", "hasattr", "setattr")
+                  and len(node.args) >= 2):
+                name = node.args[1].value if isinstance(node.args[1], ast.Constant) and isinstance(node.args[1].value, str) else "<computed>"
+            if name in cand or name == "<computed>":
+                out.add((fn.name, name))
+    return sorted(out)
+
+
 @generator("ZipBomb")
 def gen_zipbomb() -> str:
     zb = fresh_import("sharepoint2text.parsing.extractors.util.zip_bomb")
@@ -104,6 +125,9 @@ def gen_zipbomb() -> str:
     L.append("/-- the least IEEE-754 double above each ratio limit (`math.nextafter(L, inf)`), exact -/")
     L.append(f"def totalRatioNext : Ratio := ⟨{trn[0]}, {trn[1]}⟩")
     L.append(f"def entryRatioNext : Ratio := ⟨{ern[0]}, {ern[1]}⟩\n")
+    L.append("/-- every attribute of a `zipfile.ZipInfo` / `zipfile.ZipFile` object the guard module consults (function, attribute),\n"
+             "    from the AST of the current zip_bomb.py: `x.attr` and getattr/hasattr(x, \"attr\") -/")
+    L.append("def zipAttrsConsulted : List (String × String) := " + lean_list(f"({lean_str(f)}, {lean_str(a)})" for f, a in _zip_attrs_consulted(tree)) + "\n")
     L.append("/-- translator cross-check notes (runtime value vs. source literal, default wiring); must be empty -/")
     L.append("def notes : List String := " + lean_list(lean_str(n) for n in notes) + "\n")
     L.append("end S2T.Gen.ZipBomb\n")
